@@ -286,7 +286,15 @@ class BodyGen:
             used = cols
         o = {"op": "bulk_insert", "table": table["name"], "cols": [{"name": c["name"], "type": c["type"]} for c in used],
              "rows": rows, "multiinsert": multi}
-        if not self.lang_only and self.rng.random() < 0.1:
+        if not self.lang_only and self.rng.random() < 0.12:
+            # a real sa.Table whose columns have key != name; the rows are keyed by the keys (JSON rows stay keyed by name)
+            ks = {}
+            for i, c in enumerate(used):
+                if self.rng.random() < 0.6:
+                    ks[c["name"]] = self.rng.choice(["attr%d", "k %d", "Key_%d", "id_%d"]) % i
+            if ks:
+                o["keys"] = ks
+        elif not self.lang_only and self.rng.random() < 0.1:
             # ad-hoc sa.table() with UNTYPED columns: the values reach pysqlite / the literal renderer as plain Python objects
             o["untyped"] = True
             for r in rows:
@@ -510,7 +518,7 @@ def in_language(ops):
             if o.get("unique") or o.get("where") or any(isinstance(c, dict) for c in o["cols"]):
                 return False
         elif k == "bulk_insert":
-            if o.get("malformed") or o.get("untyped") or any(c["type"] not in TYPES_LANG for c in o["cols"]):
+            if o.get("malformed") or o.get("untyped") or o.get("keys") or any(c["type"] not in TYPES_LANG for c in o["cols"]):
                 return False
             if any(v["k"] not in ("null", "int", "str") for r in o["rows"] for v in r.values()):
                 return False
